@@ -13,9 +13,14 @@ the implementation alone (oracle):
              effects; traffic = data / RTCP / RTP on several SSRCs with re-ordered, repeated, backward-jumping and
              wrapping sequence numbers, bit flips and overtaking in transit; the oracle checks connected/failed and,
              PER PACKET, delivered/discarded against the property text;
-* intruder : a raw pyOpenSSL peer with a NON-signalled certificate coalesces application data with its last
-             handshake flight (defect fixed by fixes/C04-data-before-identity-check.patch), also after a legitimate
-             connection with the certificate whose serial number it copies;
+             data messages of every size class (0, 1, every plausible limit between 1180 and 1500, beyond one datagram,
+             beyond a DTLS record) in bursts, both directions; earlier connections of the process may be raw peers (below);
+* intruder : SEQUENCES of connections of a real transport with a scripted raw pyOpenSSL peer: a NON-signalled certificate
+             that puts application records into the datagram of its last handshake flight (defect fixed by
+             fixes/C04-data-before-identity-check.patch) / behind it / later, properly keyed SRTP before and after that
+             flight, unencrypted epoch-0 records and SRTP-looking junk around every flight — followed in the same process
+             by honest peers; a transport may deliver only what ITS OWN authenticated peer sent, a failed one nothing;
+* frame    : real `_write_ssl` on a BIO the case fills with whole records vs the byte-stream model `sendReads`;
 * srtp     : the two libsrtp sessions the real `_setup_srtp` creates on both ends of a real completed handshake,
              long RTP index sequences sender.protect → receiver.unprotect, vs the replay-window model `Link.run`;
 * keys     : real `SRTPProtectionProfile.get_key_and_salt` and real `_setup_srtp` (chosen selected-profile / exporter
@@ -39,7 +44,9 @@ MANIFEST = {
                  "key/salt slicing and role switch, start()/pump automaton with OpenSSL/libsrtp answers as inputs) + function-level "
                  "differential runs on real certificates / real completed handshakes, as sequences in one process + trace acceptance "
                  "of real in-process DTLS pairs (also one after another) + replay-window model of the two SRTP sessions + "
-                 "implementation-side oracle evaluated per validation and per packet",
+                 "implementation-side oracle evaluated per validation, per packet and per data message (all size classes; what a transport "
+                 "delivers is compared with what its own authenticated peer sent, across sequences of connections with hostile raw "
+                 "peers) + byte-stream model of `_write_ssl` (records -> datagrams) run against the real method",
     "text": "The fingerprint policy (accepted iff at least one supported-hash fingerprint and every supported one equals the certificate "
             "digest, case-insensitively; invariant under recasing, permutation and unsupported entries), the RFC 5764 key partition "
             "(client-tx = server-rx, server-tx = client-rx for every profile of the regenerated table) and the automaton facts (CONNECTED, "
@@ -47,7 +54,10 @@ MANIFEST = {
             "local list; FAILED terminal and silent; sends refused unless CONNECTED; unauthenticated packets dropped) are Lean theorems "
             "for all inputs; so are: what getFingerprints() signals is accepted for that certificate, and a packet the sending SRTP "
             "session lets through is never 'too old' for a receiving session whose replay window is not narrower (any order, repeats, "
-            "losses). The model is tied to the code by running the real methods and real DTLS pairs against the compiled model.",
+            "losses); `_send_data` / `_send_rtp` never change the state and a refusal by OpenSSL / libsrtp reaches the caller; a DTLS "
+            "record that fits the size `_write_ssl` reads from the BIO leaves as one whole datagram (any run of such records, bare "
+            "calls in between), a longer one is cut and its tail is the head of the next datagram. The model is tied to the code by "
+            "running the real methods and real DTLS pairs against the compiled model.",
     "note": "Partial by nature: that equal exporter output arises on both sides, that matching keys decrypt and that altered packets "
             "fail authentication is OpenSSL's / libsrtp's job; those are observed (pair component), not proved.",
     "design_ref": "DESIGN.md §2 C04",
@@ -66,6 +76,15 @@ ASSUMPTIONS = [
     "str.lower() agrees with ASCII lower-casing wherever it matters: no non-ASCII code point lower-cases into a string over "
     "[0-9a-f:] or over the characters of the supported algorithm names (checked by brute force over all code points on every "
     "run, component `identity`)",
+    "data messages: 'received intact' is demanded of every message that `_send_data` accepts without an exception and whose DTLS "
+    "record — length read from the record header the sender itself puts on the wire — is at most 1500 bytes, the datagram size "
+    "the transport reads from / writes to OpenSSL; a longer record (1464..16384-byte message under the AES-GCM suites) is cut by "
+    "`_write_ssl` of the pinned code and what follows in that direction is lost until the BIO drains: genuine defect D4 of "
+    "notes/C04.md, NOT demanded by the oracle (nothing foreign may be delivered even then). An exception from `_send_data` counts "
+    "as a visible refusal only for an empty message, for more than 2^14 bytes, or when the record would exceed 1500 bytes",
+    "a peer that puts TWO application records into one datagram: `_recv_next` calls `recv` once per datagram, the second record "
+    "waits inside OpenSSL until the next datagram arrives; the raw-peer oracle demands delivery only of records that travel in a "
+    "datagram of their own while no such record is waiting (what is delivered must still be what that peer sent, in order)",
     "handlers are atomic between awaits: `_do_handshake` → `_validate_peer_identity` → `_setup_srtp` → CONNECTED run without yielding "
     "(true of the code: no await between them); start() is called at most once per transport and stop() not during the handshake",
     "the model is of the code with fixes/C04-data-before-identity-check.patch, fixes/C04-empty-fingerprints-fail.patch and "
@@ -90,7 +109,14 @@ RULE = ("identity: sequences of 1..6 steps (validate certificate i of the real p
         "SRTP-looking/junk datagrams × optional earlier connection(s) in the same process (look-alike certificate, same parties "
         "twice), then data/RTCP/RTP traffic: per (side, SSRC of 3) extended sequence numbers +1 / forward jumps / backward jumps "
         "1..1025 incl. 127,128,129,1023,1024 / retransmissions / start values around 2^15 and 2^16, bit flips and overtaking in "
-        "transit. srtp: 20..2000 packets per case on 3 SSRCs, same moves, both directions, every profile. distinct = distinct case JSON")
+        "transit; data messages of 0, 1..1100, every size in {1180..1463} hit around 1200/1228/1243/1244/1280/1400/1463, sizes "
+        "whose record exceeds one datagram (1464..16384) and sizes OpenSSL refuses (0, >2^14), in bursts in both directions "
+        "between RTP/RTCP; earlier connections may be raw peers with a non-signalled certificate. intruder: sequences of 1..4 "
+        "connections of a real transport with a scripted pyOpenSSL peer (certificate signalled or not; 0..3 application records "
+        "appended to the last handshake flight / in own datagrams / after start() returned; SRTP keyed from that handshake before / "
+        "after the last flight; epoch-0 application records and SRTP/RTCP-looking / junk datagrams before or inside flights 1..3), "
+        "last connection mostly honest. frame: 1..9 steps of record lengths 1..4000 / bare calls. "
+        "srtp: 20..2000 packets per case on 3 SSRCs, same moves, both directions, every profile. distinct = distinct case JSON")
 
 LABEL = b"EXTRACTOR-dtls_srtp"
 PROPERTY_ALGS = ("sha-256", "sha-384", "sha-512")  # literal from the property text
@@ -325,7 +351,7 @@ class SeqComponent(Component):
     def _restore(self, case, snap):
         pass
 
-    HERMETIC_BUDGET_S = 30.0   # total time spent in fresh-process runs (confirmation + shrinking) per component
+    HERMETIC_BUDGET_S = 20.0   # total time spent in fresh-process runs (confirmation + shrinking) per component
 
     def impl(self, case):
         z = _ZYGOTE.get("z")
@@ -904,6 +930,7 @@ class Conn:
         self.tag = None     # op index of the traffic op that is being sent (None: handshake / alerts)
         self.held = []      # [remaining, data, tag]
         self.arrivals = []  # tags in the order the datagrams were put into the peer's queue
+        self.wire = []      # (tag, length, first 13 bytes) of every datagram the transport handed to send() while a traffic op ran
 
     async def recv(self):
         data = await self.rx.get()
@@ -917,6 +944,8 @@ class Conn:
         await self.tx.put(data)
 
     async def send(self, data):
+        if self.tag is not None:
+            self.wire.append((self.tag, len(data), bytes(data[:13])))
         if self.mutate is not None:
             f, self.mutate = self.mutate, None
             data = f(data)
@@ -1053,9 +1082,18 @@ def _install_shims():
             return data
 
         def send(self, data, flags=0):
-            if self._rec:
-                self._rec.obs.append("sd:" + enc_hex(bytes(data)))
-            return self._real.send(data)
+            r = self._rec
+            if r:
+                r.obs.append("sd:" + enc_hex(bytes(data)))
+                r.send_exc = None
+            try:
+                return self._real.send(data)
+            except Exception as exc:
+                # OpenSSL's answer to `send` is an input of the model (`D~hex~F~<exception>`): an empty message and one
+                # beyond the DTLS record limit of 2^14 bytes are refused here, visibly to the caller of `_send_data`
+                if r:
+                    r.send_exc = type(exc).__name__
+                raise
 
     class SslShim:
         Connection = RecConn
@@ -1201,7 +1239,8 @@ def _instrument(t, rec, cert, ice):
                     # either the wait timed out (handshake only) or the transport raised ConnectionError
                     rec.ev.append(prefix + ("~T" if cur["timeout"] else "~C"))
                 else:
-                    rec.ev.append(f"{prefix}~K~{enc_hex(cur['data'])}~{cur['ssl']}~{cur['srtp']}")
+                    # the model demultiplexes on the first two bytes of the datagram: a prefix keeps the request lines short
+                    rec.ev.append(f"{prefix}~K~{enc_hex(cur['data'][:24])}~{cur['ssl']}~{cur['srtp']}")
                     rec.processed += 1
                 if exc_name:
                     rec.obs.append("raised:" + exc_name)
@@ -1275,15 +1314,23 @@ SSRCS = {"A": [1831097322, 305419896, 4294901761], "B": [4028317929, 7, 28633115
 SSRC = {s: v[0] for s, v in SSRCS.items()}
 
 
+def pattern(n, salt=0) -> bytes:
+    """n payload bytes that differ from position to position and from message to message (a truncated, shifted or spliced
+    message never equals another one of the case)."""
+    return bytes(((salt * 37 + 11) + i * (1 + salt % 7) + (i >> 8) * 13) % 251 for i in range(n))
+
+
 def norm_ops(traffic):
     """Traffic ops in canonical dict form. Legacy list form [kind, side, payload-hex, flip?]: RTP/RTCP on the side's first
-    SSRC with the next sequence number. Dict form: {"op", "s", "pl", "flip", "k" (SSRC index), "ext" (extended sequence
-    number ROC·65536+seq of an RTP packet), "hold" (datagram overtaken in transit by the next `hold` ones)}."""
+    SSRC with the next sequence number. Dict form: {"op", "s", "pl" (payload hex) or "n" (payload = `pattern(n, position)`),
+    "flip", "k" (SSRC index), "ext" (extended sequence number ROC·65536+seq of an RTP packet), "hold" (datagram overtaken in
+    transit by the next `hold` ones)}."""
     seq = {"A": 100, "B": 7000}
     out = []
-    for op in traffic:
+    for pos, op in enumerate(traffic):
         if isinstance(op, dict):
-            d = {"op": op["op"], "s": op["s"], "pl": op.get("pl", ""), "flip": op.get("flip"), "k": op.get("k", 0),
+            pl = op.get("pl", "") if op.get("n") is None else pattern(op["n"], op.get("salt", pos)).hex()
+            d = {"op": op["op"], "s": op["s"], "pl": pl, "flip": op.get("flip"), "k": op.get("k", 0),
                  "ext": op.get("ext"), "hold": op.get("hold", 0)}
         else:
             d = {"op": op[0], "s": op[1], "pl": op[2], "flip": op[3] if len(op) > 3 else None, "k": 0, "ext": None, "hold": 0}
@@ -1446,8 +1493,14 @@ async def _run_conn(case):
             r.obs.append("raised:Error")
             status = "txerr"
         except Exception as exc:
+            if kind == "data" and getattr(r, "send_exc", None) == type(exc).__name__:
+                # OpenSSL itself refused the message (`SSL.Connection.send` raised): visible to the caller
+                r.ev[n_ev] += "~F~" + r.send_exc
+                status = "sslerr:" + type(exc).__name__
+            else:
+                status = "raised:" + type(exc).__name__
             r.obs.append("raised:" + type(exc).__name__)
-            status = "raised:" + type(exc).__name__
+        r.send_exc = None
         conn.mutate, conn.hold, conn.tag = None, 0, None
         ops.append({"i": idx, "kind": kind, "s": s, "plain": payload, "altered": flip is not None, "hold": op["hold"],
                     "k": op["k"], "ext": op["ext"], "ssrc": ssrc, "status": status})
@@ -1474,6 +1527,8 @@ async def _run_conn(case):
             "dgs": {"A": pool[ci["B"]]["dg"], "B": pool[ci["A"]]["dg"]},
             # datagrams that reached X's queue were sent by the other side: arrivals[X] = tags in arrival order
             "arrivals": {"A": list(cb.arrivals), "B": list(ca.arrivals)},
+            # what each side handed to its ICE transport while one of its traffic ops ran: (op index, length, first 13 bytes)
+            "wire": {"A": list(ca.wire), "B": list(cb.wire)},
             "dr": {s: (list(dr[s].data) if s in dr else None) for s in "AB"},
             "rr": {s: {"rtp": [(p.ssrc, p.sequence_number, bytes(p.payload)) for p in rr[s].rtp], "rtcp": len(rr[s].rtcp)} for s in "AB"},
             "keys": {s: getattr(rec[s], "keys", None) for s in "AB"},
@@ -1500,6 +1555,57 @@ def _run_loop(coro_fn, case):
 
 MIN_WINDOW = 64  # libsrtp's smallest replay window: a packet held back in transit is only required while it is this close
 
+# Application data (`_send_data`). DTLS never fragments an application record: one message = one record = one datagram.
+MAX_DATAGRAM = 1500        # literal: the largest datagram the transport reads from / writes to OpenSSL (Ethernet MTU). A message
+#                            whose DTLS record is at most this long must cross in ONE datagram and be delivered intact.
+MAX_DTLS_PLAIN = 1 << 14   # RFC 6347 §4.1 / RFC 5246 §6.2.1: a record carries at most 2^14 bytes; OpenSSL refuses more
+# size classes of generated data messages (every plausible internal limit between a typical SCTP packet and the datagram size)
+DATA_SMALL = [1, 1, 2, 5, 20, 200, 1100]
+DATA_EDGE = [1, 1180, 1199, 1200, 1201, 1228, 1243, 1244, 1245, 1265, 1279, 1280, 1281, 1300, 1350, 1399, 1400, 1401, 1436, 1450,
+             1460, 1462, 1463]
+DATA_OVER = [1464, 1465, 1487, 1488, 1500, 1501, 2000, 16384]   # record longer than one datagram (see notes/C04.md, D4)
+DATA_REFUSED = [0, 16385, 17000]                                 # OpenSSL refuses: `_send_data` raises, nothing is sent
+
+
+def _wire_by_op(res, s):
+    out = {}
+    for tag, ln, head in (res.get("wire") or {}).get(s, []):
+        out.setdefault(tag, []).append((ln, head))
+    return out
+
+
+def _declared_record(dgrams):
+    """Length (header included) of the DTLS application-data record that starts the first datagram of a data op, read from
+    the record header the sender itself put on the wire; None when the datagram does not start with such a header."""
+    if not dgrams:
+        return None
+    head = dgrams[0][1]
+    if len(head) == 13 and head[0] == 23 and head[1] == 0xFE and head[3:5] == b"\x00\x01":
+        return 13 + int.from_bytes(head[11:13], "big")
+    return None
+
+
+def _data_facts(res):
+    """Per data op index: {"n", "rec" (declared record length or None), "over" (the record does not fit one datagram),
+    "poisoned" (an earlier message of the same sender did not fit: documented defect D4 wedges what follows)}, and the record
+    overhead observed on this connection (None when no data record was seen)."""
+    facts, overhead = {}, None
+    for s in "AB":
+        wire = _wire_by_op(res, s)
+        poisoned = False
+        for o in res["ops"]:
+            if o["s"] != s or o["kind"] != "data":
+                continue
+            n = len(o["plain"])
+            rec = _declared_record(wire.get(o["i"])) if o["status"] == "sent" else None
+            if rec is not None and rec >= n + 13:
+                overhead = rec - n if overhead is None else min(overhead, rec - n)
+            over = (rec if rec is not None else n + 13) > MAX_DATAGRAM
+            facts[o["i"]] = {"n": n, "rec": rec, "over": over, "poisoned": poisoned, "dgrams": [d[0] for d in wire.get(o["i"], [])]}
+            if over and o["status"] == "sent":
+                poisoned = True
+    return facts, overhead
+
 
 class Pair(SeqComponent):
     """A case is one connection attempt (+ traffic), optionally preceded by earlier connections (`pre`) made in the same
@@ -1519,6 +1625,11 @@ class Pair(SeqComponent):
 
     def _conns(self, case):
         return list(case.get("pre", [])) + [case]
+
+    @staticmethod
+    def _kind(c):
+        """"raw": a real transport against a scripted pyOpenSSL peer (`_run_raw`); "pair": two real transports (`_run_conn`)."""
+        return "raw" if "victim_role" in c else "pair"
 
     def corpus(self):
         n = self._names()
@@ -1546,6 +1657,30 @@ class Pair(SeqComponent):
                       {"op": "rtcp", "s": "A", "k": 1}, {"op": "rtcp", "s": "A", "k": 1, "hold": 1}, {"op": "rtcp", "s": "A", "k": 0},
                       {"op": "data", "s": "B", "pl": "0a0b", "hold": 1}, {"op": "data", "s": "B", "pl": "0c"}]
                 out.append(dict(base, roles=roles, profA=[prof], profB=[prof], traffic=tr))
+        # data messages of every size class in both directions, RTP/RTCP in between; then sizes OpenSSL refuses (visible, the
+        # traffic after them still flows); last the sizes whose record does not fit one datagram
+        def data(s_, n_, **kw):
+            return dict({"op": "data", "s": s_, "n": n_}, **kw)
+        sweep = []
+        for j, n_ in enumerate(DATA_EDGE):
+            sweep += [data("A", n_), data("B", n_)]
+            if j % 4 == 1:
+                sweep += [rtp("A", 500 + j, 2), {"op": "rtcp", "s": "B", "k": 2}]
+        tail = [data("A", 0), data("B", 16385), data("A", 7), data("B", 1463), data("A", 1463, hold=1), data("A", 1244), data("A", 3, flip=77),
+                data("B", 1300, flip=5000), data("B", 1280), data("A", 1464), data("B", 5), data("B", 16384), data("A", 9)]
+        out.append(dict(base, traffic=sweep + tail))
+        for roles in (["client", "server"], ["server", "client"]):
+            out.append(dict(base, roles=roles, traffic=sweep[::3] + [x for x in tail if x["n"] < 16384]))
+        for prof in n:
+            out.append(dict(base, roles=["client", "server"], profA=[prof], profB=[prof],
+                            traffic=[data("A", 1244), data("B", 1463), rtp("B", 10), data("A", 1), data("B", 1280), data("A", 1463), data("B", 2)]))
+        # a raw peer with a non-signalled certificate sends its first application record in the datagram of its last handshake
+        # flight (decrypted inside the victim's handshake loop) and more behind it; then an honest pair connects and talks
+        for vrole in ("client", "server"):
+            eager = {"victim_role": vrole, "good": False, "msgs": [["e1" + "45" * 20, "c"], ["e2" + "46" * 5, "s"]], "late": ["e3aa"],
+                     "srtp": [["b", 10], ["a", 11]], "intruder_cert": 1, "signalled_cert": 2, "victim_cert": 0}
+            out.append(dict(base, certA=0, certB=3, traffic=[["data", "A", "01"], ["data", "B", "02"], ["rtp", "B", "03"], ["data", "B", "04"]],
+                            pre=[eager]))
         # a legitimate peer, then — same process — another party whose certificate shares attributes with the legitimate one
         for a, b, _ in _pool()["twins"]:
             for x, y in ((a, b), (b, a)):
@@ -1579,21 +1714,69 @@ class Pair(SeqComponent):
         [["sha-384", "other-cert", "lower"], ["sha-384", "ok", "lower"]],
     ]
 
-    def _gen_traffic(self, rng, n_ops, heavy):
-        """Data / RTCP / RTP ops. RTP: per (side, SSRC) a stream of extended sequence numbers — mostly +1, forward jumps,
+    def _payload(self, rng, ordinal, j):
+        # first two bytes tell connections and messages of a sequence apart
+        return (bytes([0xA0 + ordinal % 80, j]) + bytes(rng.randrange(256) for _ in range(rng.choice([0, 2, 30, 200, 1200])))).hex()
+
+    def _gen_raw(self, rng, good, ordinal, certs=None):
+        from harness import c04pool
+        ecs = c04pool.ec_indexes(_M())
+        v, x, sgn = certs if certs else rng.sample(ecs, 3)
+        c = {"victim_role": rng.choice(["client", "server"]), "good": good, "victim_cert": v, "intruder_cert": x, "signalled_cert": sgn,
+             "dr": rng.random() < 0.9}
+        msgs = []
+        for j in range(rng.choice([0, 1, 1, 1, 2, 3])):
+            mode = ("c" if rng.random() < 0.7 else "s") if j == 0 else ("c" if rng.random() < 0.15 else "s")
+            msgs.append([self._payload(rng, ordinal, j), mode])
+        c["msgs"] = msgs
+        c["late"] = [self._payload(rng, ordinal, 100 + j) for j in range(rng.choice([0, 0, 1, 2]))]
+        if rng.random() < 0.4:
+            c["srtp"] = [[rng.choice("ba"), 20 + j] for j in range(rng.choice([1, 2, 3]))]
+        if rng.random() < (0.5 if not good else 0.25):
+            inj = []
+            for _ in range(rng.choice([1, 1, 2, 3])):
+                fl = rng.choice([1, 1, 2, 2, 3])
+                what = rng.choice(["srtp", "srtcp", "junk", "app0-own", "app0-append"])
+                if what == "srtp":
+                    inj.append([fl, "pre", (bytes([0x80, 96]) + bytes(rng.randrange(256) for _ in range(30))).hex()])
+                elif what == "srtcp":
+                    inj.append([fl, "pre", (bytes([0x80, 200]) + bytes(rng.randrange(256) for _ in range(30))).hex()])
+                elif what == "junk":
+                    inj.append([fl, "pre", (bytes([rng.choice([0, 1, 19, 64, 100, 127, 192, 255])]) + bytes(rng.randrange(256) for _ in range(rng.choice([0, 1, 20])))).hex()])
+                elif what == "app0-own":
+                    inj.append([fl, "pre", epoch0_app_record(bytes.fromhex(self._payload(rng, ordinal, 200))).hex()])
+                else:
+                    inj.append([fl, "app", epoch0_app_record(bytes.fromhex(self._payload(rng, ordinal, 201))).hex()])
+            c["inj"] = inj
+        if good and rng.random() < 0.3:
+            c["fp"] = rng.choice(Pair.GOOD[:6])
+        return c
+
+    def _gen_traffic(self, rng, n_ops, heavy, sizes=False):
+        """Data / RTCP / RTP ops. Data: messages of every size class (`sizes`: bursts of mixed sizes in both directions with some
+        RTP/RTCP in between; at the very end possibly messages whose record does not fit one datagram). RTP: per (side, SSRC) a stream of extended sequence numbers — mostly +1, forward jumps,
         backward jumps of every size up to and just beyond the 1024 window (127, 128, 129, 1023, 1024 …) relative to the
         newest one, retransmissions of a number sent before, start values around the 16-bit wrap. The FIRST packet of a
         stream is never altered or held (a receiver that has seen nothing of a stream cannot infer its roll-over counter)."""
         streams = {}   # (side, k) -> {"hi": newest ext, "sent": [ext...]}
         traffic = []
         kinds = ["data", "rtp", "rtp", "rtcp"] if not heavy else ["data", "rtp", "rtp", "rtp", "rtp", "rtp", "rtcp"]
+        if sizes:
+            kinds = ["data"] * 7 + ["rtp", "rtp", "rtcp"]
         for _ in range(n_ops):
             kind = rng.choice(kinds)
             s = rng.choice("AB")
             op = {"op": kind, "s": s}
             first = False
             if kind == "data":
-                op["pl"] = bytes(rng.randrange(256) for _ in range(rng.choice([1, 1, 2, 5, 20, 200, 1100]))).hex()
+                if rng.random() < (0.65 if sizes else 0.2):
+                    # around every plausible internal limit between an SCTP packet and the datagram size
+                    op["n"] = rng.choice(DATA_EDGE + [rng.randrange(1180, 1464), rng.randrange(1180, 1464), rng.randrange(1, 1464)])
+                    op["salt"] = rng.randrange(1000)
+                elif rng.random() < 0.06:
+                    op["n"] = rng.choice([0, 0, 0, 0, 16385])  # OpenSSL refuses: visible, nothing sent, later traffic flows
+                else:
+                    op["pl"] = bytes(rng.randrange(256) for _ in range(rng.choice(DATA_SMALL))).hex()
             elif kind == "rtcp":
                 op["k"] = rng.randrange(3)
             else:
@@ -1617,13 +1800,18 @@ class Pair(SeqComponent):
                         ext = hi - d if hi - d >= 0 else hi + 1100            # early in a stream: jump forward first
                 st["hi"] = max(st["hi"], ext)
                 st["sent"].append(ext)
-                op.update(k=k, ext=ext, pl=bytes(rng.randrange(256) for _ in range(rng.choice([1, 2, 5, 20, 200, 1100]))).hex())
+                op.update(k=k, ext=ext, pl=bytes(rng.randrange(256) for _ in range(rng.choice([1, 2, 5, 20, 200, 1100, 1200]))).hex())
             if not first:
                 if rng.random() < 0.25:
                     op["flip"] = rng.randrange(0, 1 << 14)
                 if rng.random() < 0.12 and not (kind == "rtp" and st["hi"] - op["ext"] > 20):
                     op["hold"] = rng.choice([1, 1, 2, 3])
             traffic.append(op)
+        if sizes and rng.random() < 0.35:
+            for _ in range(rng.choice([1, 1, 2])):
+                traffic.append({"op": "data", "s": rng.choice("AB"), "n": rng.choice(DATA_OVER[:-1] * 3 + [16384, rng.randrange(1464, 3000)]),
+                                "salt": rng.randrange(1000)})
+                traffic.append({"op": "data", "s": rng.choice("AB"), "n": rng.choice([1, 40, 1200, 1463]), "salt": rng.randrange(1000)})
         return traffic
 
     def cases(self, rng, tier):
@@ -1646,17 +1834,19 @@ class Pair(SeqComponent):
             if rng.random() < 0.5:
                 fa, fb = fb, fa
             heavy = rng.random() < 0.35
-            if heavy:
+            sizes = not heavy and rng.random() < 0.45
+            if heavy or sizes:
                 # RTP-heavy traffic needs a connection: same profile order trouble aside, keep a common profile and good lists
                 fa, fb = rng.choice(self.GOOD), rng.choice(self.GOOD)
                 if not [p for p in pa if p in pb]:
                     pb = pa
             case = {"profA": pa, "profB": pb, "roles": r, "fpA": fa, "fpB": fb,
                     "dr": [rng.random() < 0.85, rng.random() < 0.85],
-                    "traffic": self._gen_traffic(rng, rng.randrange(12, 40) if heavy else rng.randrange(3, 9), heavy)}
+                    "traffic": self._gen_traffic(rng, rng.randrange(12, 40) if heavy else rng.randrange(6, 18) if sizes else rng.randrange(3, 9),
+                                                 heavy, sizes)}
             ca, cb = rng.sample(ecs, 2)
             case["certA"], case["certB"] = ca, cb
-            if rng.random() < 0.3 and not heavy:
+            if rng.random() < 0.3 and not heavy and not sizes:
                 case["early"] = [[rng.choice("AB"),
                                   bytes([rng.choice([0x80, 0x80, 0x90, 0xBF, 0x81, 0x00, 0x13, 0x40, 0x7F, 0xC0, 0xFF]),
                                          rng.choice([0, 200, 201, 96])] + [rng.randrange(256) for _ in range(rng.choice([0, 10, 30]))]).hex()]
@@ -1683,7 +1873,14 @@ class Pair(SeqComponent):
                 elif mode < 0.75:
                     case["fpA"] = [["sha-256", "signalled", "asis"]]
                 # else: whatever was drawn (honest second connection with a look-alike certificate)
-            elif q < 0.32:
+            elif q < 0.40:
+                # earlier in this process: raw peer(s) with a NON-signalled certificate that put application records into the
+                # datagram of their last handshake flight / right behind it / SRTP around it; then this honest pair connects
+                k = rng.choice([1, 1, 2])
+                case["pre"] = [self._gen_raw(rng, False, j) for j in range(k)]
+                if rng.random() < 0.5:
+                    case["pre"][-1]["victim_cert"] = case["certA"]
+            elif q < 0.47:
                 # the same two parties connect twice
                 case["pre"] = [dict(case, traffic=case["traffic"][:2])]
                 case["pre"][0].pop("early", None)
@@ -1703,9 +1900,13 @@ class Pair(SeqComponent):
             return {"line": "dtls cannot-drive", "out": out, "results": None}
 
     def _run_local_inner(self, case):
-        results = [_run_loop(_run_conn, c) for c in self._conns(case)]
+        results = [_run_loop(_run_raw if self._kind(c) == "raw" else _run_conn, c) for c in self._conns(case)]
         specs, outs = [], []
         for c, res in zip(self._conns(case), results):
+            if self._kind(c) == "raw":
+                specs.append(f"{','.join(self._names())}/{'1' if c.get('dr', True) else '0'}/{c['victim_role']}/{';'.join(res['ev'])}")
+                outs.append(",".join(res["obs"] + ["final:" + res["final"]]))
+                continue
             for s in "AB":
                 role = c["roles"][0 if s == "A" else 1]
                 specs.append(f"{','.join(c['prof' + s]) or '-'}/{'1' if c['dr'][0 if s == 'A' else 1] else '0'}/{role}/{';'.join(res['ev'][s]) or '-'}")
@@ -1753,14 +1954,98 @@ class Pair(SeqComponent):
             return ("the transport pair raised " + impl_out[6:]) if impl_out.startswith("crash:") else None
         conns = self._conns(case)
         for n, (c, res) in enumerate(zip(conns, results)):
-            msg = self._oracle_conn(c, res)
+            msg = self._oracle_rawconn(c, res) if self._kind(c) == "raw" else self._oracle_conn(c, res)
             if msg:
+                # is something that was delivered here what a party of an EARLIER connection of this process sent?
+                mine = self._payloads_sent(c, res)
+                for g in self._payloads_delivered(c, res):
+                    if g in mine:
+                        continue
+                    for m in range(n):
+                        if g in self._payloads_sent(conns[m], results[m]):
+                            msg += (f" [the delivered message {g.hex()[:24]} is what was sent on connection {m + 1} of this process "
+                                    f"({self._describe_conn(conns[m], results[m])}): data crosses from one transport to another]")
+                            break
+                    else:
+                        continue
+                    break
                 if len(conns) == 1:
                     return msg
-                before = "; ".join(f"connection {m + 1}: certificates {_describe_cert(r['cert']['A'])} / {_describe_cert(r['cert']['B'])} → "
-                                   f"{r['state']['A']}/{r['state']['B']}" for m, r in enumerate(results[:n]))
-                return (f"connection {n + 1} of {len(conns)} in this process (certificates A={_describe_cert(res['cert']['A'])}, "
-                        f"B={_describe_cert(res['cert']['B'])}" + (f"; earlier — {before}" if before else "") + f"): {msg}")
+                before = "; ".join(f"connection {m + 1}: {self._describe_conn(conns[m], r)}" for m, r in enumerate(results[:n]))
+                return (f"connection {n + 1} of {len(conns)} in this process ({self._describe_conn(c, res)}" +
+                        (f"; earlier — {before}" if before else "") + f"): {msg}")
+        return None
+
+    def _describe_conn(self, c, res):
+        if self._kind(c) == "raw":
+            k = res["cert"]
+            return (f"transport with certificate {_describe_cert(k['V'])} as DTLS {c['victim_role']} against a raw peer presenting "
+                    f"{_describe_cert(k['X'])}, signalled {'that one' if k['S'] == k['X'] else _describe_cert(k['S'])} → {res['state']}")
+        return (f"certificates A={_describe_cert(res['cert']['A'])}, B={_describe_cert(res['cert']['B'])} → "
+                f"{res['state']['A']}/{res['state']['B']}")
+
+    def _payloads_sent(self, c, res):
+        if self._kind(c) == "raw":
+            return {x["pl"] for x in res["sent"]}
+        return {o["plain"] for o in res["ops"] if o["kind"] == "data"}
+
+    def _payloads_delivered(self, c, res):
+        if self._kind(c) == "raw":
+            return list(res["data"] or [])
+        return [x for s_ in "AB" for x in (res["dr"][s_] or [])]
+
+    def _oracle_rawconn(self, c, res):
+        """The property for one real transport (the victim) against a scripted peer: connected only to the signalled certificate;
+        a failed transport delivers, keys and sends nothing; a connected one hands to its receivers ONLY what its own
+        authenticated peer sent on this connection — in order, each record once — and everything that peer sent in a datagram
+        of its own after its handshake was complete."""
+        inj = c.get("inj") or []
+        disruptive = any(k == "app" or (hx[:2] and 19 < int(hx[:2], 16) < 64) for _, k, hx in inj)
+        k = res["cert"]
+        good = policy_accepts(res["fps"], _pool()["certs"][k["X"]]["dg"])   # the property text on the list that was signalled
+        who = ("the signalled one" if good else
+               f"NOT the signalled one (presented {_describe_cert(k['X'])}, signalled {_describe_cert(k['S'])})")
+        head = f"victim (DTLS {c['victim_role']})"
+        obs = res["obs"]
+        if not good and res["state"] != "failed":
+            return f"{head} ended in {res['state']!r} against a peer whose certificate is {who}"
+        if good and not disruptive and res["peer_done"] and res["state"] != "connected":
+            return f"{head} ended in {res['state']!r} against a peer whose certificate is {who}"
+        delivered = [o for o in obs if o.startswith(("dd:", "drtp:", "drtcp:"))]
+        if res["state"] != "connected":
+            if delivered or res["data"]:
+                what = res["data"][0].hex()[:32] if res["data"] else delivered[0][:40]
+                return (f"{head} handed {what} from a peer whose certificate is {who} to its receivers although it ended start() in "
+                        f"{res['state']!r}")
+            if any(o.startswith("keys:") for o in obs):
+                return f"{head} ended in {res['state']!r} but SRTP sessions were keyed"
+            if any(o.startswith(("sd:", "srtp:", "srtcp:")) for o in obs):
+                return f"{head} ended in {res['state']!r} but sent application data / SRTP"
+            if res["state"] == "failed" and res["final"] != "failed":
+                return f"{head}: FAILED is not terminal (final state {res['final']!r})"
+            return None
+        # connected: delivered data = an in-order selection of what THIS peer sent, containing every record that must arrive
+        if res["data"] is not None:
+            sent, j = res["sent"], 0
+            for g in res["data"]:
+                if all(x["pl"] != g for x in sent[j:]):
+                    j = len(sent)
+                while j < len(sent) and sent[j]["pl"] != g:
+                    if sent[j]["must"]:
+                        return (f"{head}, connected: application record {j + 1} of its authenticated peer ({sent[j]['pl'].hex()[:24]}, sent in a "
+                                f"datagram of its own after the handshake) was never handed to the data receiver")
+                    j += 1
+                if j == len(sent):
+                    return (f"{head}, connected: handed {g.hex()[:32]} ({len(g)} bytes) to its data receiver, which its authenticated peer did "
+                            f"not send on this connection (that peer sent {[x['pl'].hex()[:12] for x in sent]})")
+                j += 1
+            for x in sent[j:]:
+                if x["must"]:
+                    return (f"{head}, connected: application record {x['pl'].hex()[:24]} of its authenticated peer (own datagram, after the "
+                            f"handshake) was never handed to the data receiver")
+        for o in obs:
+            if o.startswith("drtp:") and bytes.fromhex(o[5:]) not in res["srtp_sent"]:
+                return f"{head}, connected: handed an RTP packet to its handler that its peer did not send ({o[5:37]})"
         return None
 
     def _expected_flow(self, res, s, peer, both):
@@ -1776,8 +2061,21 @@ class Pair(SeqComponent):
         hi, seen = {}, {}          # per SSRC: newest extended index delivered to peer, indexes delivered
         tx_hi = {}                 # per SSRC: newest extended index the sender encrypted before this packet
         order = {o["i"]: n for n, o in enumerate(res["ops"])}
+        dfacts, _ = _data_facts(res)
+        done = set()
+        # whatever a send call accepted without an exception has to reach the wire (the in-memory link loses nothing)
+        reached = {tag for tag in res["arrivals"][peer] if tag is not None}
+        for o in res["ops"]:
+            if o["s"] == s and o["status"] == "sent" and o["i"] not in reached:
+                size = f" of {len(o['plain'])} bytes" if o["kind"] == "data" else ""
+                return (f"{o['kind']} {'message' if o['kind'] == 'data' else 'packet'}{size} (op {o['i']}) was accepted by {s}'s "
+                        f"{'_send_data' if o['kind'] == 'data' else '_send_rtp'} without an exception, but {s} handed nothing to its ICE "
+                        f"transport for it: silently dropped by the sender")
         for o in arrived:
             kind = o["kind"]
+            if o["i"] in done:
+                continue       # a second datagram of the same op
+            done.add(o["i"])
             if o["status"] != "sent":
                 return f"{kind} op {o['i']} of {s} ({o['status']}) nevertheless put a datagram on the wire"
             if o["altered"]:
@@ -1791,8 +2089,14 @@ class Pair(SeqComponent):
                 ptr[kind] += 1
             must = both
             why = ""
-            if kind == "data" and res["dr"][peer] is None:
-                must = False
+            if kind == "data":
+                f = dfacts[o["i"]]
+                if res["dr"][peer] is None or f["over"] or f["poisoned"]:
+                    must = False
+                cut = f["rec"] is not None and f["dgrams"] and f["dgrams"][0] < f["rec"]
+                why = (f" of {f['n']} bytes" + (f" (DTLS record of {f['rec']} bytes" if f["rec"] is not None else " (no intact record header") +
+                       f"; {s} handed datagram(s) of {f['dgrams']} bytes to its ICE transport for it" +
+                       (": the record was cut" if cut else "") + ")")
             if kind == "rtp":
                 ss = o["ssrc"]
                 newest = max([p["ext"] for p in res["ops"] if p["s"] == s and p["kind"] == "rtp" and p["ssrc"] == ss
@@ -1808,9 +2112,11 @@ class Pair(SeqComponent):
                     seen.setdefault(ss, set()).add(o["ext"])
                     hi[ss] = max(hi.get(ss, -1), o["ext"])
             if must and not delivered:
+                if kind == "data":
+                    return (f"data message{why} was accepted by {s}'s _send_data without an exception (op {o['i']}), nothing was altered "
+                            f"in transit, and it was never handed to {peer}'s data receiver (delivered so far: {ptr[kind]} data messages)")
                 return (f"{kind} packet{why} was accepted, encrypted and put on the wire by {s} (op {o['i']}), arrived unaltered, and was "
-                        f"never handed to {peer}'s {'data receiver' if kind == 'data' else kind.upper() + ' handler'} "
-                        f"(delivered so far: {ptr[kind]} of that kind)")
+                        f"never handed to {peer}'s {kind.upper() + ' handler'} (delivered so far: {ptr[kind]} of that kind)")
         for kind in got:
             if ptr[kind] != len(got[kind]):
                 return (f"{peer} handed {len(got[kind]) - ptr[kind]} {kind} packet(s) to its receivers that {s} did not send in that form "
@@ -1873,9 +2179,20 @@ class Pair(SeqComponent):
             mine = [o for o in res["ops"] if o["s"] == s]
             if res["state"][s] != "connected" and any(o["status"] != "refused" for o in mine):
                 return f"side {s} is {res['state'][s]} but accepted {sum(1 for o in mine if o['status'] != 'refused')} send(s)"
+            dfacts, overhead = _data_facts(res)
+            wire = _wire_by_op(res, s)
             for o in mine:
                 if o["status"].startswith("raised:"):
                     return f"{o['kind']} send of side {s} (op {o['i']}) raised {o['status'][7:]}"
+                if o["status"].startswith("sslerr:"):
+                    # a clean refusal is fine where no DTLS record can carry the message in one datagram
+                    n = len(o["plain"])
+                    if not (n == 0 or n > MAX_DTLS_PLAIN or n + (overhead or 13) > MAX_DATAGRAM):
+                        return (f"_send_data of side {s} (op {o['i']}) raised {o['status'][7:]} for a message of {n} bytes, which fits a "
+                                f"DTLS record of {n + (overhead or 13)} <= {MAX_DATAGRAM} bytes")
+                    if wire.get(o["i"]):
+                        return (f"_send_data of side {s} (op {o['i']}, {n} bytes) raised {o['status'][7:]} but handed datagram(s) of "
+                                f"{[d[0] for d in wire[o['i']]]} bytes to the ICE transport")
         return None
 
     def label(self, case, impl_out):
@@ -1900,6 +2217,13 @@ class Pair(SeqComponent):
             tags.append("back<128" if back < 128 else "back<1024" if back < 1024 else "back>=1024")
         if any(o["status"] == "txerr" for o in ops):
             tags.append("txrefused")
+        dsz = [len(o["plain"]) for o in ops if o["kind"] == "data" and o["status"] == "sent"]
+        if any(1180 <= x <= 1463 for x in dsz):
+            tags.append("data1180-1463")
+        if any(x > 1463 for x in dsz):
+            tags.append("data>1463")
+        if any(o["status"].startswith("sslerr:") for o in ops):
+            tags.append("sslrefused")
         if any(o["hold"] for o in ops):
             tags.append("held")
         if len({(o["s"], o["ssrc"]) for o in rtp}) > 2:
@@ -1909,8 +2233,9 @@ class Pair(SeqComponent):
         pre = ""
         if len(results) > 1:
             twins = {frozenset((a, b)) for a, b, _ in _pool()["twins"]}
-            tw = any(frozenset((r["cert"]["B"], res["cert"]["B"])) in twins for r in results[:-1])
-            pre = "after-twin:" if tw else "after-conn:"
+            tw = any(frozenset((r["cert"]["B"], res["cert"]["B"])) in twins for r in results[:-1] if "B" in r["cert"])
+            raw = any("X" in r["cert"] for r in results[:-1])
+            pre = "after-rawpeer:" if raw else "after-twin:" if tw else "after-conn:"
         return (f"{pre}{res['state']['A']}/{res['state']['B']}-roles:{case['roles'][0][:1]}{case['roles'][1][:1]}-" +
                 (res["keys"]["A"][0] if res["keys"]["A"] else "nokeys") + ("-" + "+".join(tags) if tags else ""))
 
@@ -1921,8 +2246,11 @@ class Pair(SeqComponent):
                 if len(case["pre"]) > 1:
                     yield dict(case, pre=case["pre"][:i] + case["pre"][i + 1:])
             for i, p in enumerate(case["pre"]):
-                if p["traffic"]:
+                if p.get("traffic"):
                     yield dict(case, pre=case["pre"][:i] + [dict(p, traffic=[])] + case["pre"][i + 1:])
+                if self._kind(p) == "raw":
+                    for cand in Intruder._shrink_raw(p):
+                        yield dict(case, pre=case["pre"][:i] + [cand] + case["pre"][i + 1:])
         tr = case["traffic"]
         if len(tr) > 6:
             yield dict(case, traffic=tr[: len(tr) // 2])
@@ -1934,6 +2262,11 @@ class Pair(SeqComponent):
                 yield dict(case, traffic=tr[:i] + [{k: v for k, v in op.items() if k not in ("hold", "flip")}] + tr[i + 1:])
             if isinstance(op, dict) and len(op.get("pl", "")) > 2:
                 yield dict(case, traffic=tr[:i] + [dict(op, pl=op["pl"][:2])] + tr[i + 1:])
+            if isinstance(op, dict) and op.get("n"):
+                # towards the smallest size that still fails
+                for m in (1, op["n"] // 2, op["n"] - 100, op["n"] - 10, op["n"] - 1):
+                    if 0 < m < op["n"]:
+                        yield dict(case, traffic=tr[:i] + [dict(op, n=m)] + tr[i + 1:])
         for s in ("profA", "profB"):
             for i in range(len(case[s])):
                 if len(case[s]) > 1:
@@ -1947,87 +2280,218 @@ class Pair(SeqComponent):
 
 
 # ----------------------------------------------------------------------------------------------
-# component 4: the intruder (wrong certificate, data coalesced with the last handshake flight)
+# component 4: the intruder — a raw pyOpenSSL peer (any certificate) that sends application records and SRTP packets at
+# every stage before / after the victim is `connected`, followed in the same process by honest connections
 # ----------------------------------------------------------------------------------------------
 
-async def _run_intruder(case):
+def raw_msgs(c):
+    """[(payload, mode)] — application records the raw peer produces as soon as ITS handshake is complete. mode "c": appended to
+    the datagram built so far (the first one: to the peer's last handshake flight, if it has one), "s": a datagram of its own.
+    Legacy form: {"payload", "coalesce"}."""
+    if "msgs" in c:
+        return [(bytes.fromhex(h), m) for h, m in c["msgs"]]
+    return [(bytes.fromhex(c["payload"]), "c" if c["coalesce"] else "s")]
+
+
+def epoch0_app_record(payload: bytes, seq: int = 9) -> bytes:
+    """An UNENCRYPTED DTLS 1.2 application-data record of epoch 0 (what a peer that has no keys yet can put on the wire)."""
+    return b"\x17\xfe\xfd\x00\x00" + seq.to_bytes(6, "big") + len(payload).to_bytes(2, "big") + payload
+
+
+async def _run_raw(case):
+    """One connection attempt of a real transport (the victim) with a scripted raw pyOpenSSL peer. The peer presents pool
+    certificate `intruder_cert`; the victim was signalled that certificate (`good`) or another one. Script: `inj` = datagrams
+    sent before ("pre") / bytes appended to ("app") the peer's n-th handshake flight; `msgs` (see raw_msgs); `srtp` = RTP
+    packets protected with the keys of this very handshake, sent just before ("b") / after ("a") the peer's last handshake
+    datagram; `late` = application records sent one per datagram after the victim's start() has returned."""
     M = _M()
     _install_shims()
-    real_SSL = M._c04_real[0]
+    real_SSL, real_Session = M._c04_real
+    import pylibsrtp
     qa, qb = asyncio.Queue(), asyncio.Queue()
-    st = {"sent": 0}
-    cv, cx = Conn(qa, qb, st), Conn(qb, qa, {"sent": 0})
+    cv, cx = Conn(qa, qb, {"sent": 0}), Conn(qb, qa, {"sent": 0})
     certs = _certs()
     vi, ii = case.get("victim_cert", 0), case.get("intruder_cert", 1)
     si = ii if case["good"] else case.get("signalled_cert", 2)
-    victim_cert, intruder_cert = certs[vi], certs[ii]
     ice = Ice(cv, "controlling")
-    t = M.RTCDtlsTransport(ice, [victim_cert])
+    t = M.RTCDtlsTransport(ice, [certs[vi]])
     t._set_role(case["victim_role"])
     rec = Rec("V")
-    _instrument(t, rec, victim_cert, ice)
-    dr = DataReceiver(rec)
-    t._register_data_receiver(dr)
-    ssl = real_SSL.Connection(intruder_cert._create_ssl_context(M.SRTP_PROFILES))
+    _instrument(t, rec, certs[vi], ice)
+    dr = None
+    if case.get("dr", True):
+        dr = DataReceiver(rec)
+        t._register_data_receiver(dr)
+    try:
+        ctx = certs[ii]._create_ssl_context(M.SRTP_PROFILES)
+    except AttributeError:
+        from harness import c04pool
+        ctx = c04pool._context(_pool()["certs"][ii], b":".join(p.openssl_profile for p in M.SRTP_PROFILES))
+    ssl = real_SSL.Connection(ctx)
     if case["victim_role"] == "server":
         ssl.set_connect_state()
     else:
         ssl.set_accept_state()
-    payload = bytes.fromhex(case["payload"])
+    msgs = raw_msgs(case)
+    inj = [(f, k, bytes.fromhex(hx)) for f, k, hx in case.get("inj", [])]
+    plan = case.get("srtp", [])
+    sent, srtp_sent = [], []
+    st = {"done": False, "flights": 0}
 
-    async def intruder():
-        done = False
+    def drain():
+        out = b""
+        try:
+            while True:
+                out += ssl.bio_read(4096)
+        except real_SSL.Error:
+            pass
+        return out
+
+    def srtp_session():
+        sel = ssl.get_selected_srtp_profile()
+        p = next((q for q in M.SRTP_PROFILES if q.openssl_profile == sel), None)
+        if p is None:
+            return None
+        mat = ssl.export_keying_material(LABEL, 2 * (p.key_length + p.salt_length))
+        tx, _ = rfc5764_keys(p.key_length, p.salt_length, bytes(mat), "client" if case["victim_role"] == "server" else "server")
+        return real_Session(pylibsrtp.Policy(key=tx, ssrc_type=pylibsrtp.Policy.SSRC_ANY_OUTBOUND, srtp_profile=p.libsrtp_profile))
+
+    def record_of(payload):
+        try:
+            ssl.send(payload)
+        except real_SSL.Error:
+            return b""
+        return drain()
+
+    async def peer():
         while True:
             try:
                 ssl.do_handshake()
-                done = True
+                st["done"] = True
             except real_SSL.WantReadError:
                 pass
-            out = b""
-            try:
-                while True:
-                    out += ssl.bio_read(1500)
             except real_SSL.Error:
-                pass
-            if done:
-                ssl.send(payload)
-                more = ssl.bio_read(1500)
-                if case["coalesce"]:
-                    await cx.send(out + more)
-                else:
-                    if out:
-                        await cx.send(out)
-                    await cx.send(more)
+                return          # the victim's answer ended the handshake
+            out = drain()
+            if out or st["done"]:
+                st["flights"] += 1
+                for f, k, b in inj:
+                    if f == st["flights"] and k == "pre":
+                        await cx.send(b)
+                if out:
+                    out += b"".join(b for f, k, b in inj if f == st["flights"] and k == "app")
+            if st["done"]:
+                sess = srtp_session() if plan else None
+                for when, ext in plan:
+                    if sess is not None:
+                        plain = make_rtp(ext, b"x%d" % ext, SSRCS["B"][0], pt=96)
+                        srtp_sent.append((when, plain, sess.protect(plain)))
+                for when, plain, wire in srtp_sent:
+                    if when == "b":
+                        await cx.send(wire)
+                dgrams = [out] if out else []
+                spoiled = False     # a datagram carried two application records: the second one waits inside OpenSSL
+                for pl, mode in msgs:
+                    r = record_of(pl)
+                    if not r:
+                        continue
+                    if mode == "c" and dgrams:
+                        phase = "flight" if (len(dgrams) == 1 and out and not sent) else "coalesced"
+                        dgrams[-1] += r
+                    else:
+                        phase = "own"
+                        dgrams.append(r)
+                    spoiled = spoiled or phase == "coalesced"
+                    sent.append({"pl": pl, "phase": phase, "must": phase == "own" and not spoiled})
+                for d in dgrams:
+                    await cx.send(d)
+                for when, plain, wire in srtp_sent:
+                    if when == "a":
+                        await cx.send(wire)
                 return
             if out:
                 await cx.send(out)
-            ssl.bio_write(await cx.recv())
+            try:
+                ssl.bio_write(await asyncio.wait_for(cx.recv(), 0.5))
+            except (asyncio.TimeoutError, ConnectionError):
+                return
 
-    fps = build_fps([["sha-256", "ok", "upper"]], si, vi)
+    fps = build_fps(case.get("fp", [["sha-256", "ok", "upper"]]), si, vi)
     rec.ev.append(f"S~1~{enc_fps(fps)}")
     rec.phase = "hs"
 
     async def start():
         _CUR_REC.set(rec)
+        n_obs = len(rec.obs)
         try:
             await t.start(M.RTCDtlsParameters(fingerprints=[M.RTCDtlsFingerprint(algorithm=a, value=v) for a, v in fps]))
         except Exception as exc:
-            rec.obs.append("raised:" + type(exc).__name__)
+            tag = "raised:" + type(exc).__name__
+            if tag not in rec.obs[n_obs:]:
+                rec.obs.append(tag)
         rec.phase = "run"
-    await asyncio.wait_for(asyncio.gather(start(), intruder()), 10)
-    for _ in range(20):
+
+    async def quiet():
+        for _ in range(2000):
+            await asyncio.sleep(0)
+            task = t._task
+            if task is None or task.done() or (qa.empty() and not (rec.cur is not None and rec.cur["data"] is not None)):
+                break
+        for _ in range(5):
+            await asyncio.sleep(0)
+
+    vt, pt = asyncio.ensure_future(start()), asyncio.ensure_future(peer())
+    deadline = asyncio.get_event_loop().time() + 10
+    while not (vt.done() and pt.done()) and asyncio.get_event_loop().time() < deadline:
         await asyncio.sleep(0)
+        if pt.done() and not vt.done():
+            # the peer has nothing more to say: let the victim consume what is queued, then close the link
+            for _ in range(50):
+                await asyncio.sleep(0)
+                if vt.done():
+                    break
+            if not vt.done():
+                qa.put_nowait(None)
+                for _ in range(50):
+                    await asyncio.sleep(0)
+                    if vt.done():
+                        break
+                break
+    for task, name in ((vt, "start"), (pt, "peer")):
+        if not task.done():
+            task.cancel()
+            try:
+                await task
+            except BaseException:
+                pass
+            if name == "start":
+                rec.obs.append("start-cancelled")
+    await quiet()
     state = t.state
+    if st["done"]:
+        for hx in case.get("late", []):
+            pl = bytes.fromhex(hx)
+            r = record_of(pl)
+            if r:
+                await cx.send(r)
+                sent.append({"pl": pl, "phase": "late", "must": not any(x["phase"] == "coalesced" for x in sent)})
+            await quiet()
+    await quiet()
     rec.ev.append("X")
     await t.stop()
     for _ in range(5):
         await asyncio.sleep(0)
-    return {"ev": rec.ev, "obs": rec.obs, "state": state, "final": t.state, "data": list(dr.data)}
+    if t._task is not None:
+        t._task.cancel()
+    return {"ev": rec.ev, "obs": rec.obs, "state": state, "final": t.state, "data": list(dr.data) if dr else None, "fps": fps,
+            "sent": sent, "srtp_sent": [p for _, p, _ in srtp_sent], "peer_done": st["done"], "cert": {"V": vi, "X": ii, "S": si}}
 
 
 class Intruder(Pair):
+    """Sequences of connections in one process whose LAST one is a raw-peer connection (see `_run_raw`); earlier ones are raw
+    peers with non-signalled certificates that send application data / SRTP at every stage, legitimate peers, or real pairs."""
     name = "intruder"
-    theorems = ["delivery_only_if_validated", "failed_silent", "connected_only_if"]
+    theorems = ["delivery_only_if_validated", "failed_silent", "connected_only_if", "recvNext_delivery"]
 
     def corpus(self):
         out = [{"victim_role": "client", "coalesce": True, "good": False, "payload": "4556494c"}]
@@ -2037,6 +2501,16 @@ class Intruder(Pair):
                         "intruder_cert": b, "signalled_cert": a,
                         "pre": [{"victim_role": "client", "coalesce": False, "good": True, "payload": "01", "victim_cert": 2 if 2 not in (a, b) else 0,
                                  "intruder_cert": a}]})
+        # a peer with a non-signalled certificate whose first application record shares the datagram of its last handshake flight
+        # (decrypted inside the victim's handshake loop); afterwards, in the same process, an honest peer connects and talks
+        for role in ("client", "server"):
+            eager = {"victim_role": "client", "good": False, "msgs": [["e1" + "45" * 20, "c"], ["e2" + "46" * 5, "s"]], "late": ["e3aa"],
+                     "srtp": [["b", 10], ["a", 11]], "intruder_cert": 1, "signalled_cert": 2, "victim_cert": 0}
+            out.append({"victim_role": role, "good": True, "msgs": [["a1", "s"], ["a2" + "00" * 1200, "s"]], "late": ["a3"], "srtp": [["a", 5]],
+                        "victim_cert": 3, "intruder_cert": 0, "pre": [eager]})
+            out.append({"victim_role": role, "good": True, "msgs": [["b1b1", "c"], ["b2", "s"]], "late": ["b3"], "victim_cert": 3, "intruder_cert": 0,
+                        "pre": [eager, dict(eager, victim_role="server", msgs=[["e4", "c"]], late=[]),
+                                dict(eager, inj=[[1, "pre", "80c80001deadbeef"], [2, "pre", epoch0_app_record(b"e5e5").hex()], [2, "app", epoch0_app_record(b"e6").hex()]])]})
         return out
 
     def cases(self, rng, tier):
@@ -2058,44 +2532,82 @@ class Intruder(Pair):
                                 "signalled_cert": a, "payload": bytes(rng.randrange(256) for _ in range(rng.choice([1, 4, 100]))).hex(),
                                 "pre": [{"victim_role": rng.choice(["client", "server"]), "coalesce": False, "good": True, "payload": "01",
                                          "victim_cert": v, "intruder_cert": a}]})
+        # scripted peers, alone and in sequences: non-signalled certificates that talk at every stage, then honest ones
+        for _ in range(60 if tier == "quick" else 1500):
+            m = rng.random()
+            if m < 0.25:
+                case = self._gen_raw(rng, rng.random() < 0.5, 0)
+            else:
+                k = rng.choice([1, 1, 2, 3])
+                pre = [self._gen_raw(rng, rng.random() < 0.15, j) for j in range(k)]
+                case = self._gen_raw(rng, rng.random() < 0.85, k)
+                if rng.random() < 0.5:
+                    # the honest party is the very transport owner that was approached before (same local certificate)
+                    case["victim_cert"] = pre[-1]["victim_cert"]
+                    if case["intruder_cert"] == case["victim_cert"]:
+                        case["intruder_cert"] = pre[-1]["intruder_cert"]
+                case["pre"] = pre
+            case["n"] = len(out)
+            out.append(case)
         return out
-
-    def _run_local_inner(self, case):
-        results = [_run_loop(_run_intruder, c) for c in self._conns(case)]
-        line = "dtls trace " + " ".join(f"{','.join(self._names())}/1/{c['victim_role']}/{';'.join(r['ev'])}"
-                                        for c, r in zip(self._conns(case), results))
-        out = " | ".join(",".join(r["obs"] + ["final:" + r["final"]]) for r in results)
-        return {"line": line, "out": out, "results": results}
-
-    def _oracle_raw(self, case, impl_out):
-        results = self._summary.get(case_key(case) + impl_out)
-        if results is None:
-            return ("the victim transport raised " + impl_out[6:]) if impl_out.startswith("crash:") else None
-        conns = self._conns(case)
-        for n, (c, res) in enumerate(zip(conns, results)):
-            ctx = "" if len(conns) == 1 else f"connection {n + 1} of {len(conns)} in this process: "
-            want = "connected" if c["good"] else "failed"
-            who = ("the signalled one" if c["good"] else
-                   f"NOT the signalled one (presented {_describe_cert(c.get('intruder_cert', 1))}, signalled {_describe_cert(c.get('signalled_cert', 2))})")
-            if res["state"] != want:
-                return f"{ctx}victim ({c['victim_role']}) ended in {res['state']!r} against a peer whose certificate is {who}"
-            if not c["good"] and res["data"]:
-                return (f"{ctx}victim ({c['victim_role']}) handed {res['data'][0].hex()} from a peer with a non-signalled certificate to its data "
-                        f"receiver (before the fingerprint check) and then failed")
-        return None
 
     def label(self, case, impl_out):
         results = self._summary.get(case_key(case) + impl_out)
         res = results[-1] if results else None
-        return (("after-legit-twin-" if case.get("pre") else "") +
-                f"{case['victim_role']}-{'coalesced' if case['coalesce'] else 'separate'}-{'good' if case['good'] else 'bad'}cert-" +
-                (res["state"] if res else "exc") + ("-delivered" if res and res["data"] else ""))
+        pre = case.get("pre") or []
+        head = ""
+        if pre:
+            bad = sum(1 for c in pre if self._kind(c) == "raw" and not c["good"])
+            head = f"after-{len(pre)}conn({bad}bad)-" if "msgs" in case else "after-legit-twin-"
+        if "msgs" not in case:
+            return (head + f"{case['victim_role']}-{'coalesced' if case['coalesce'] else 'separate'}-{'good' if case['good'] else 'bad'}cert-" +
+                    (res["state"] if res else "exc") + ("-delivered" if res and res["data"] else ""))
+        tags = []
+        if res:
+            ph = {x["phase"] for x in res["sent"]}
+            tags += sorted(ph)
+            if res["srtp_sent"]:
+                tags.append("srtp")
+        if case.get("inj"):
+            tags.append("inj")
+        return (head + f"{case['victim_role']}-{'good' if case['good'] else 'bad'}cert-" + (res["state"] if res else "exc") +
+                (f"-delivered{len(res['data'])}" if res and res["data"] else "") + ("-" + "+".join(tags) if tags else ""))
 
     def _shrink(self, case):
-        if case.get("pre"):
+        pre = case.get("pre") or []
+        if pre:
             yield {k: v for k, v in case.items() if k != "pre"}
-        if case["payload"] != "00":
-            yield dict(case, payload="00")
+            for i in range(len(pre)):
+                if len(pre) > 1:
+                    yield dict(case, pre=pre[:i] + pre[i + 1:])
+        chain = pre + [case]
+        for i, c in enumerate(chain):
+            if self._kind(c) != "raw":
+                continue
+            for cand in self._shrink_raw(c):
+                if i == len(chain) - 1:
+                    yield dict(cand, pre=pre) if pre else cand
+                else:
+                    yield dict(case, pre=pre[:i] + [cand] + pre[i + 1:])
+
+    @staticmethod
+    def _shrink_raw(c):
+        c = {k: v for k, v in c.items() if k != "pre"}
+        if "msgs" not in c:
+            if c["payload"] != "00":
+                yield dict(c, payload="00")
+            return
+        for key in ("inj", "srtp", "late", "msgs"):
+            lst = c.get(key) or []
+            if len(lst) > 1:
+                yield dict(c, **{key: []})
+            for i in range(len(lst)):
+                yield dict(c, **{key: lst[:i] + lst[i + 1:]})
+        for i, (hx, mode) in enumerate(c.get("msgs") or []):
+            if len(hx) > 4:
+                yield dict(c, msgs=c["msgs"][:i] + [[hx[:4], mode]] + c["msgs"][i + 1:])
+        if c.get("fp"):
+            yield {k: v for k, v in c.items() if k != "fp"}
 
 
 # ----------------------------------------------------------------------------------------------
@@ -2284,6 +2796,186 @@ class SrtpWindow(Component):
                 yield dict(base, pkts=pk[:i] + [[k, ext, 0]] + pk[i + 1:])
 
 
+# ----------------------------------------------------------------------------------------------
+# component 6: `_write_ssl` — from the outgoing memory BIO (a byte stream of whole records) to datagrams
+# ----------------------------------------------------------------------------------------------
+
+class _BioOnly:
+    """Stands in for the SSL.Connection of a transport as far as the OUTGOING memory BIO is concerned: `bio_read(n)` serves a
+    byte stream the case filled with whole records (an empty BIO raises WantReadError as pyOpenSSL does); every other call goes
+    to a genuine completed connection."""
+    def __init__(self, real):
+        self.buf, self.reads, self._real = b"", [], real
+
+    def __getattr__(self, k):
+        real = self.__dict__.get("_real")
+        if real is None or k.startswith("__"):
+            raise AttributeError(k)
+        return getattr(real, k)
+
+    def bio_read(self, n):
+        from OpenSSL import SSL
+        self.reads.append(n)
+        if not self.buf or n <= 0:
+            raise SSL.WantReadError()
+        out, self.buf = self.buf[:n], self.buf[n:]
+        return out
+
+
+class _DgramSink:
+    role = "controlling"
+
+    def __init__(self):
+        self.sent = []
+
+    async def _send(self, data):
+        self.sent.append(bytes(data))
+
+    async def _recv(self):
+        raise ConnectionError
+
+    async def stop(self):
+        pass
+
+
+def app_record(n, seq):
+    """n bytes that look like one DTLS 1.2 application-data record of epoch 1 (header + opaque body)."""
+    n = max(n, 1)
+    head = (b"\x17\xfe\xfd\x00\x01" + seq.to_bytes(6, "big") + max(n - 13, 0).to_bytes(2, "big"))[:n]
+    return head + pattern(n - len(head), seq)
+
+
+class Frame(Component):
+    """Real `_write_ssl` of a fresh transport on a BIO the case fills: steps = record lengths (OpenSSL appended ONE record,
+    e.g. `_send_data`) or 0 (bare call, e.g. at the end of `_recv_next`). Output: the datagrams handed to the ICE transport
+    per step and what is left in the BIO. Model: `sendReads` with the sizes the method passed to `bio_read` as inputs."""
+    name = "frame"
+    theorems = ["sendRecord_whole", "sendRecord_cut", "sendRecord_after_cut", "sendRecords_whole", "data_messages_whole_1500",
+                "writeSsl_empty", "writeReads_single", "writeReads_whole"]
+
+    def corpus(self):
+        return [{"steps": [38]}, {"steps": [1281, 43]}, {"steps": [1500, 0, 38, 1499]}, {"steps": [1300, 1400, 1463 + 37, 0, 60]},
+                {"steps": [0, 0]}, {"steps": [1501, 0, 50]}, {"steps": [2037, 43, 0, 0, 44]}, {"steps": [1, 2, 13, 14]}]
+
+    def cases(self, rng, tier):
+        out = []
+        for i in range(80 if tier == "quick" else 3000):
+            steps = []
+            for _ in range(rng.choice([1, 2, 3, 4, 6])):
+                m = rng.random()
+                if m < 0.15:
+                    steps.append(0)
+                elif m < 0.6:
+                    steps.append(rng.choice(DATA_EDGE) + rng.choice([37, 37, 29, 13]))
+                else:
+                    steps.append(rng.choice([1, 14, 38, 200, 1237, rng.randrange(1, 1501), rng.randrange(1180, 1501), 1500]))
+            if rng.random() < 0.25:
+                steps += [rng.choice([1501, 1537, 2000, 3001, 4000]), rng.choice([0, 43]), rng.choice([0, 60])]
+            out.append({"steps": steps, "n": i})
+        return out
+
+    def _records(self, case):
+        return [app_record(n, i) if n else None for i, n in enumerate(case["steps"])]
+
+    def _run(self, case):
+        """-> (canonical output, chunk observed or None)"""
+        from harness import c04pool
+        M = _M()
+        try:
+            sink = _DgramSink()
+            t = M.RTCDtlsTransport(sink, [_pool()["certs"][0]["rtc"]])
+            bio = _BioOnly(c04pool.peer_connection(M, 0)[0])
+            t._ssl = bio
+            write = t._write_ssl
+        except Exception as exc:
+            return "HARNESS-EXC cannot drive the implementation: " + type(exc).__name__ + ": " + str(exc)[:120], None
+        outs, reads = [], []
+        loop = asyncio.new_event_loop()
+        try:
+            for r in self._records(case):
+                if r is not None:
+                    bio.buf += r
+                n = len(sink.sent)
+                bio.reads = []
+                reads.append(bio.reads)
+                try:
+                    loop.run_until_complete(write())
+                except Exception as exc:
+                    if _raised_in_harness(exc):
+                        return "HARNESS-EXC cannot drive the implementation: " + type(exc).__name__ + ": " + str(exc)[:120], None
+                    return "crash " + type(exc).__name__, None
+                new = sink.sent[n:]
+                outs.append("+".join(enc_hex(d) for d in new) if new else "none")
+        finally:
+            loop.close()
+        return (",".join(outs) or "-") + " left:" + enc_hex(bio.buf), reads
+
+    def impl(self, case):
+        out, reads = self._run(case)
+        case.setdefault("_c", {})["reads"] = reads
+        return out
+
+    def model_line(self, case):
+        if "reads" not in case.get("_c", {}):
+            self.impl(case)
+        reads = case["_c"]["reads"]
+        if reads is None:
+            return "dtls cannot-drive"
+        # the sizes the method passed to `bio_read` in each step are inputs of the model (one read per call in the pinned code)
+        return "dtls frame - " + (",".join((enc_hex(r) if r is not None else "F") + "@" + ".".join(str(x) for x in rd)
+                                           for r, rd in zip(self._records(case), reads)) or "-")
+
+    def oracle(self, case, impl_out):
+        if impl_out.startswith("HARNESS-EXC"):
+            return None
+        if impl_out.startswith("crash "):
+            return "_write_ssl raised " + impl_out[6:]
+        body, left = impl_out.rsplit(" left:", 1)
+        steps = [] if body == "-" else [([] if x == "none" else [bytes.fromhex(h) if h != "-" else b"" for h in x.split("+")]) for x in body.split(",")]
+        recs = self._records(case)
+        if len(steps) != len(recs):
+            return f"{len(recs)} steps, {len(steps)} outcomes"
+        # the BIO is a byte stream: nothing is lost, duplicated or re-ordered
+        put = b"".join(r for r in recs if r is not None)
+        out = b"".join(d for st in steps for d in st) + (bytes.fromhex(left) if left != "-" else b"")
+        if out != put:
+            return f"{len(put)} bytes were put into the outgoing BIO, {len(out)} came out (datagrams + rest) or came out in another order"
+        clean = True    # the BIO was empty before this step
+        for i, (r, st) in enumerate(zip(recs, steps)):
+            if not clean:
+                break   # an over-long record was cut earlier (notes/C04.md D4): what follows is not required
+            if r is None:
+                if st:
+                    return f"step {i + 1}: _write_ssl on an empty BIO handed {[len(d) for d in st]} bytes to the ICE transport"
+                continue
+            if len(r) <= MAX_DATAGRAM:
+                if st != [r]:
+                    return (f"step {i + 1}: a DTLS record of {len(r)} bytes (<= {MAX_DATAGRAM}) was appended to the empty outgoing BIO; "
+                            f"_write_ssl handed datagram(s) of {[len(d) for d in st]} bytes to the ICE transport instead of the one whole "
+                            f"record — DTLS does not re-assemble records: the message is lost and the rest corrupts the next datagram")
+            else:
+                clean = False
+        return None
+
+    def label(self, case, impl_out):
+        if impl_out.startswith(("HARNESS-EXC", "crash ")):
+            return impl_out.split(" ")[0]
+        big = max(case["steps"] + [0])
+        return ("over1500" if big > 1500 else "1281-1500" if big > 1280 else "<=1280") + ("+bare" if 0 in case["steps"] else "") + \
+               ("+left" if not impl_out.endswith("left:-") else "")
+
+    def shrink(self, case):
+        st = case["steps"]
+        base = {k: v for k, v in case.items() if k != "_c"}
+        for i in range(len(st)):
+            if len(st) > 1:
+                yield dict(base, steps=st[:i] + st[i + 1:])
+        for i, n in enumerate(st):
+            for m in (n // 2, n - 100, n - 10, n - 1):
+                if 0 < m < n:
+                    yield dict(base, steps=st[:i] + [m] + st[i + 1:])
+
+
 class _KeysFirst(KeysComp):
     def impl_many(self, cases):
         _ensure_zygote()
@@ -2292,7 +2984,7 @@ class _KeysFirst(KeysComp):
 
 def components(tier):
     # order = order in which failures are reported: the end-to-end components before the function-level configuration checks
-    return [Identity(), Pair(), Intruder(), SrtpWindow(), _KeysFirst()]
+    return [Identity(), Pair(), Intruder(), SrtpWindow(), Frame(), _KeysFirst()]
 
 
 def classify_finding(finding, comp_name, case, what):
